@@ -301,6 +301,7 @@ def run_cases(batch, res, lib, gen):
         descs = descs[: batch["only"]]
     group_max = {"raw": 40, "mut": 25, "frames": 1, "tls": 1, "hist": 1}[fam]
     confirmed = {}
+    unconfirmed = {}
     i = 0
     fidelity_budget = 1 if batch["seed"] % 3 == 0 else 0
     while i < len(descs):
@@ -354,6 +355,9 @@ def run_cases(batch, res, lib, gen):
             if confirmed.get(sig, 0) >= 2:
                 res.count("violations_seen")
                 continue
+            if unconfirmed.get(sig, 0) >= 2:
+                res.count("obs_unconfirmed_on_fresh_state")
+                continue
             sig2, ar2, phase2 = replay_on_fresh(batch, seq, lib, gen)
             SeededUrandom(batch["seed"] + i).install()
             if sig2 is None:
@@ -362,6 +366,7 @@ def run_cases(batch, res, lib, gen):
                 if sig2 is not None:
                     seq = seq[-1:]
             if sig2 is None:
+                unconfirmed[sig] = unconfirmed.get(sig, 0) + 1
                 res.count("obs_unconfirmed_on_fresh_state")
                 res.inconclusive.append("raise %s seen on a copied state did not reproduce on a fresh state (%s/%s %s)" % (sig, role, state, fam))
                 continue
